@@ -1,5 +1,6 @@
 import Afkak.ClientCache
 import Afkak.ClientNet
+import Afkak.ClientIface
 import Afkak.Monitor.C08
 import Afkak.Monitor.C07
 import Afkak.Monitor.C11
@@ -367,6 +368,9 @@ def parseTItem : List String → Option TItem
   | ["t-attr", k, o, idxs] => do some (.attr (← k.toNat?) (← o.toNat?) (← (splitList "," idxs).mapM (·.toNat?)))
   | ["t-uattr", k, u] => do some (.uattr (← k.toNat?) (← u.toNat?))
   | ["t-battr", j, u] => do some (.battr (← j.toNat?) (← u.toNat?))
+  | ["t-uop", u, o] => do some (.uop (← u.toNat?) (← o.toNat?))
+  | ["t-wrote", k, c] => do some (.wrote (← k.toNat?) (← c.toNat?))
+  | ["t-lose", c] => do some (.lose (← c.toNat?))
   | "t-net" :: rest => some (.net (" ".intercalate rest))
   | _ => none
 
@@ -387,6 +391,7 @@ def netStep (n : NetSt) (ws : List String) : Option (NetSt × List String) :=
   | ["mon-c07"] => some (n, failsLine (Afkak.Monitor.C07.run n.cfg n.trace.reverse).fails)
   | ["mon-c11"] => some (n, failsLine (Afkak.Monitor.C11.run n.cfg n.trace.reverse).fails)
   | ["mon-c20"] => some (n, failsLine (Afkak.Monitor.C20.run n.trace.reverse).fails)
+  | ["mon-iface"] => some (n, failsLine (Afkak.ClientIface.run n.trace.reverse).fails)
   | ["ndump"] =>
     some (n, dump n.st.cache ++
       ["timers " ++ showList (n.st.timers.map (fun t => s!"{showTimerWhat t.what}@{showRat t.due}")),
